@@ -8,6 +8,9 @@ Tie W2: for every generated cube, EVERY dimension is re-encoded with the real `i
         block is compared, the extra cells must be missing), and again after the real `shift_common()`; every output of
         the real ccube must equal the output for the original encoding (model-free), the exact per-cell oracle, and - INSIDE
         Coq - the model FFuncs.ccube_report evaluated on the real re-encoded dimensions (AggCheck.agg_check_any).
+        A second stream gives one or two dimensions an extra axis (N, C) (columns that are entirely the stored common or
+        constant included): the real 2-D shift_common(v) / shift_common() is applied and every sub-cube block is compared
+        with the original block, the oracle on that column, and the model on the really `sliced` one-axis dimensions.
 """
 from .. import core
 from .. import cube_aggs as ca
@@ -53,13 +56,131 @@ def block_compare(c, base, var, fmt):
     return ca.compare(c, got, want)
 
 
+# ---------------------------------------------------------------------------------------------
+# dimensions with an extra axis (N, C): one independent sub-cube ("block") per column (C13)
+# ---------------------------------------------------------------------------------------------
+def widen(rng, c, catii):
+    """Turn one (sometimes two) dimensions of the case into (N, C) dimensions.  Returns (dims, cols) where cols[d] is
+    the list of dense columns of dimension d (one column for an ordinary dimension)."""
+    import numpy
+    nd = len(c["exts"])
+    wide = {rng.randrange(nd)}
+    if nd >= 2 and rng.random() < 0.25:
+        wide.add(rng.randrange(nd))
+    dims, cols = [], []
+    for d in range(nd):
+        e, cm, N = c["exts"][d], c["commons"][d], c["N"]
+        if d not in wide:
+            cols.append([list(c["arrs"][d])])
+            dims.append(ca.build_index(catii, c["arrs"][d], cm, N))
+            continue
+        C = rng.choice([2, 2, 3])
+        cs = [list(c["arrs"][d])]
+        for _ in range(C - 1):
+            r = rng.random()
+            if r < 0.35:
+                cs.append([cm] * N)                                   # a column that is entirely the stored common
+            elif r < 0.5:
+                v = rng.randrange(e)
+                cs.append([v] * N)                                    # a constant column
+            else:
+                cs.append([rng.randrange(e) for _ in range(N)])
+        rng.shuffle(cs)
+        entries = {}
+        for j, col in enumerate(cs):
+            a = numpy.asarray(col, dtype=numpy.int64)
+            for v in sorted(set(col)):
+                if v != cm:
+                    entries[(int(v), j)] = numpy.nonzero(a == v)[0].astype(numpy.uint32)
+        dims.append(catii.iindex(entries, cm, (N, C)))
+        cols.append(cs)
+    return dims, cols
+
+
+def dims_from_columns(catii, cols, commons, N):
+    import numpy
+    dims = []
+    for cs, cm in zip(cols, commons):
+        if len(cs) == 1:
+            dims.append(ca.build_index(catii, cs[0], cm, N))
+            continue
+        entries = {}
+        for j, col in enumerate(cs):
+            a = numpy.asarray(col, dtype=numpy.int64)
+            for v in sorted(set(col)):
+                if v != cm:
+                    entries[(int(v), j)] = numpy.nonzero(a == v)[0].astype(numpy.uint32)
+        dims.append(catii.iindex(entries, cm, (N, len(cs))))
+    return dims
+
+
+def apply_tag(dim, tag):
+    """'shift_common(2).shift_common()' / '2-D shift_common(2)' -> the calls, on a copy"""
+    import re
+    out = dim.copy()
+    for arg in re.findall(r"shift_common\((\d*)\)", tag):
+        out.shift_common(int(arg) if arg else None)
+    return out
+
+
+def run_blocks(catii, c, fmt, dims, exts):
+    """ccube over dimensions with extra axes: {"exc"} or {"blocks": {scaffold index: result dict}, "shape"}"""
+    import warnings
+    import numpy
+    args, kw = ca.call_args(c, fmt)
+    try:
+        with warnings.catch_warnings():
+            warnings.simplefilter("ignore")
+            with numpy.errstate(all="ignore"):
+                cube = catii.ccube(dims, interacting_shape=tuple(exts))
+                out = getattr(cube, c["kind"])(*args, **kw)
+                scaffold = tuple(int(e) for e in cube.scaffold_shape)
+                shape = tuple(int(e) for e in cube.interacting_shape)
+    except Exception as e:
+        return {"exc": type(e).__name__ + ": " + str(e)[:200]}
+    ncells = 1
+    for e in shape:
+        ncells *= e
+    blocks = {}
+    for idx in numpy.ndindex(*scaffold):
+        blk = tuple(numpy.asarray(o)[idx] for o in out) if isinstance(out, tuple) else numpy.asarray(out)[idx]
+        cells, odd = ca.abstract_output(blk, fmt, ncells, c["K"] or 1)
+        blocks[idx] = {"cells": cells, "shape": shape, "odd": odd}
+    return {"blocks": blocks, "shape": shape, "scaffold": scaffold}
+
+
+def block_case(c, cols, idx):
+    """the one-axis case of the block with scaffold index idx"""
+    arrs, k = [], 0
+    for cs in cols:
+        if len(cs) == 1:
+            arrs.append(cs[0])
+        else:
+            arrs.append(cs[idx[k]])
+            k += 1
+    return dict(c, arrs=arrs)
+
+
+def sliced_dims(dims, idx):
+    out, k = [], 0
+    for d in dims:
+        if len(d.shape) == 1:
+            out.append(d)
+        else:
+            out.append(d.sliced(int(idx[k])))
+            k += 1
+    return out
+
+
 def run(ctx):
     thorough = ctx.tier == "thorough"
     rng = ctx.rng
     ctx.rule = ("the C03 generator restricted to >= 1 dimension (aggregate x 1-3 dims x fact/weight forms x policy x format), stored "
                 "common frequent/rare/absent; for every dimension d and every v in 0..extent-1 the real d.copy().shift_common(v) replaces "
                 "d (explicit shape), v = extent replaces it under an inferred shape, and each re-encoded dimension is re-normalised with "
-                "the real shift_common(); a case = one (re-encoded cube, call) literal; non-trivial when N > 0 and the new common differs "
+                "the real shift_common(); a second stream widens one or two dimensions to (N, C), C in 2..3 (columns entirely the stored "
+                "common / constant / random) and re-encodes those with the 2-D shift_common, every sub-cube block compared; "
+                "a case = one (re-encoded cube or block, call) literal; non-trivial when N > 0 and the new common differs "
                 "from the stored one")
     ctx.trusted = list(core.STD_TRUSTED) + [
         "as C03 (NumPy primitives modelled); IIndex/OpsA.shift_common is the model of iindex.shift_common (tied by property C06)",
@@ -114,12 +235,77 @@ def run(ctx):
                 variant(c, fmt, base, dims, d, auto, "shift_common(%d).shift_common()" % v, explicit=True)
         return base
 
-    n_rand = 2000 if thorough else 260
+    n_wide = n_blocks = 0
+
+    def one_wide(c):
+        """a cube with an (N, C) dimension: every block of every re-encoding against the original, the oracle, the model"""
+        nonlocal n_wide, n_blocks, n_var
+        n_wide += 1
+        fmt = pick_fmt(rng, c)
+        c = dict(c, shape_mode="explicit", xdtype="int64")
+        dims, cols = widen(rng, c, catii)
+        exts = list(c["exts"])
+        base = run_blocks(catii, c, fmt, dims, exts)
+        S.calls += 1
+
+        def judge_blocks(res, dims_used, exts_used, tag, d=None, commons=None):
+            nonlocal n_blocks
+            cc = dict(c, commons=commons or c["commons"], exts=list(exts_used))
+            if "exc" in res:
+                S.fail(cc, fmt, "c", "EXC " + res["exc"], {"tag": tag, "columns": cols, "dimension": d, "original_commons": c["commons"], "exts_used": list(exts_used)})
+                return
+            for idx, blk in res["blocks"].items():
+                n_blocks += 1
+                cb = block_case(cc, cols, idx)
+                bad = ca.judge(cb, "c", fmt, blk)
+                if bad:
+                    S.fail(cb, fmt, "c", "block %s: %s" % (list(idx), bad), {"tag": tag, "columns": cols, "dimension": d, "block": list(idx), "original_commons": c["commons"], "exts_used": list(exts_used)})
+                    continue
+                if "blocks" in base and tag != "original":
+                    diff = block_compare(cb, base["blocks"][idx], blk, fmt)
+                    if diff:
+                        S.fail(cb, fmt, "reencode", "block %s, dimension %d re-encoded (%s): %s" % (list(idx), d, tag, diff),
+                               {"tag": tag, "columns": cols, "dimension": d, "block": list(idx), "original_commons": c["commons"], "exts_used": list(exts_used)})
+                        continue
+                sd = sliced_dims(dims_used, idx)
+                ents = [(ca.index_entries(x), int(x.common)) for x in sd]
+                S.lits.append(ca.case_lit(cb, fmt, ents, blk["shape"], blk["shape"], blk, None))
+                S.metas.append({"case": ca.case_json(cb), "format": list(fmt), "tag": tag, "dims": [[e, cm] for e, cm in ents]})
+                if c["N"] > 0 and tag != "original":
+                    ctx.nontrivial.add(S.lits[-1])
+
+        judge_blocks(base, dims, exts, "original")
+        for d, e in enumerate(c["exts"]):
+            if len(dims[d].shape) == 1:
+                continue
+            for v in list(range(e)) + [e]:
+                for auto in (False, True):
+                    n_var += 1
+                    nd_ = dims[d].copy()
+                    nd_.shift_common(v)
+                    if auto:
+                        nd_.shift_common()
+                    S.count("wide-new-common:" + ("same" if int(nd_.common) == c["commons"][d] else "other"))
+                    dims2 = list(dims)
+                    dims2[d] = nd_
+                    exts2 = list(exts)
+                    if v >= e and not auto:
+                        exts2[d] = e + 1                   # a value outside the data: the cube grows by missing cells
+                    commons = list(c["commons"])
+                    commons[d] = int(nd_.common)
+                    res = run_blocks(catii, c, fmt, dims2, exts2)
+                    S.calls += 1
+                    judge_blocks(res, dims2, exts2, "2-D shift_common(%d)%s" % (v, ".shift_common()" if auto else ""), d, commons)
+
+    n_rand = 6000 if thorough else 900
     for i in range(n_rand):
         c = ca.gen_case(rng, nd=rng.choice([1, 2, 2, 2, 3]))
         base = one(c)
         if i < 2 and base.get("cells") is not None:
             ctx.samples.append({"case": ca.case_json(c), "ccube_cells_original_encoding": [[None if v is None else float(v) for v in row] for row in base["cells"][:12]]})
+    for i in range(1500 if thorough else 220):
+        one_wide(ca.gen_case(rng, nd=rng.choice([1, 1, 2, 2, 3])))
+    ctx.coverage.update({"cubes_with_an_extra_axis": n_wide, "blocks_judged": n_blocks})
     ctx.coverage.update({"cubes": n_cubes, "re_encodings": n_var, "real_calls": S.calls, "calls_compared_in_coq": len(S.lits),
                          "distribution": dict(sorted(S.dist.items()))})
     if thorough:
@@ -133,19 +319,37 @@ def run(ctx):
 def replay(ctx, path):
     def rejudge(catii, c, fmt, it):
         orig = it.get("original_commons")
-        if orig is None:
+        if orig is None or it.get("tag") in (None, "original") and not it.get("columns"):
             res = ca.run_cube(catii, c, "c", fmt)
             return ca.judge(c, "c", fmt, res)
+        d = it.get("dimension")
+        if it.get("columns"):                       # a cube with an (N, C) dimension: judge the recorded block
+            cols = it["columns"]
+            dims = dims_from_columns(catii, cols, orig, c["N"])
+            exts_used = it.get("exts_used") or list(c["exts"])
+            dims2 = list(dims)
+            if d is not None and it["tag"] != "original":
+                dims2[d] = apply_tag(dims[d], it["tag"])
+            res = run_blocks(catii, c, fmt, dims2, exts_used)
+            if "exc" in res:
+                return "EXC " + res["exc"]
+            out = []
+            base = run_blocks(catii, dict(c, commons=orig), fmt, dims, exts_used) if it["tag"] != "original" else None
+            for idx, blk in res["blocks"].items():
+                if it.get("block") is not None and list(idx) != list(it["block"]):
+                    continue
+                cb = block_case(dict(c, exts=list(exts_used)), cols, idx)
+                b = ca.judge(cb, "c", fmt, blk)
+                if not b and base is not None and "blocks" in base:
+                    b = block_compare(cb, base["blocks"][idx], blk, fmt)
+                if b:
+                    out.append("block %s: %s" % (list(idx), b))
+            return "; ".join(out[:3]) or None
         c0 = dict(c, commons=orig, shape_mode="explicit")
         dims = ca.build_dims(catii, c0)
         base = ca.run_cube(catii, c0, "c", fmt, dims=dims)
-        d = it["dimension"]
-        nd_ = dims[d].copy()
-        for step in it["tag"].split(")."):
-            arg = step.split("(")[1].rstrip(")")
-            nd_.shift_common(int(arg) if arg else None)
         dims2 = list(dims)
-        dims2[d] = nd_
+        dims2[d] = apply_tag(dims[d], it["tag"])
         var = ca.run_cube(catii, c, "c", fmt, dims=dims2)
         if "exc" in var:
             return "EXC " + var["exc"]
